@@ -29,7 +29,11 @@ NamesOKOn(e, H) ==
   /\ \A h \in DOMAIN e.tls \cap H : e.tls[h].cert = ExpectCert(e, h) /\ e.tls[h].ca = ExpectCert(e, h) /\ e.tls[h].verify = (ExpectCert(e, h) # "")
 NamesOK(e) == NamesOKOn(e, DOMAIN e.resolve \cup DOMAIN e.tls)
 \* C11: the effective configuration of every cluster is that of a fresh gateway given only the latest objects
-StaleVersion(e, c) == "StaleRequeue" \in Deviations /\ "fresh_versions" \in DOMAIN e /\ e.eff[c] \in Rng(e.fresh_versions[c]) /\ e.eff[c].names # e.fresh[c].names
+\* (versconf[c][k]: version k of c named something a version of ANOTHER cluster named - only such a version can have been refused and
+\*  requeued; a cluster that merely never received its latest version is not excused)
+StaleVersion(e, c) == /\ "StaleRequeue" \in Deviations /\ "fresh_versions" \in DOMAIN e
+                      /\ \E k \in DOMAIN e.fresh_versions[c] : e.fresh_versions[c][k] = e.eff[c] /\ e.versconf[c][k]
+                      /\ "names" \in DOMAIN e.eff[c] /\ "names" \in DOMAIN e.fresh[c] /\ e.eff[c].names # e.fresh[c].names
 \* ... server names included: the name TABLE (what every host resolves to) is the fresh gateway's; a difference on host h is explained by the
 \* known deviation only when a cluster that is serving an earlier version of itself is involved on either side
 StaleName(e, h) == \E c \in DOMAIN e.eff : StaleVersion(e, c) /\ e.eff[c] # e.fresh[c] /\ (e.resolve[h] = T.base[c] \/ e.fresh_resolve[h] = T.base[c])
@@ -61,7 +65,7 @@ Served(e, c) == {T.base[h] : h \in {x \in DOMAIN e.resolve : e.resolve[x] = T.ba
 CertOf(e, c) == e.tls[CHOOSE h \in DOMAIN e.tls : T.base[h] = T.base[c]].cert
 StaleServing(e, c) == /\ Present(e, c)
                       /\ \E k \in DOMAIN e.vers[c] :
-                            /\ Rng(e.vers[c][k]) = Served(e, c)
+                            /\ Rng(e.vers[c][k]) = Served(e, c) /\ e.versconf[c][k]
                             /\ \/ Served(e, c) # Claims(e, c)
                                \/ /\ e.verstls[c][k] # e.latest[c].tls
                                   /\ CertOf(e, c) = (IF e.verstls[c][k] = "none" THEN "" ELSE T.base[c] \o "-" \o e.verstls[c][k])
